@@ -96,8 +96,11 @@ CLAIMS = {
  "C07": ("Theorems on the ordered host-call log of Eval.eval: for programs without macros the number of invocations is at most the number of "
          "call nodes (linear bound, by induction over expressions; every extractor list that touches each argument once - all built-ins - is covered); "
          "a call's log is the receiver's log, then logs of argument results in argument order (at most their total), then at most one invocation; "
-         "strict binary operators evaluate left then right and stop at a left error; list elements in source order, each once. The bound for programs "
-         "with macros (size x product of ranges) is not proved (partial). Tied to objects.rs/magic.rs by programs whose leaves and calls are wrapped "
+         "strict binary operators evaluate left then right and stop at a left error; list elements in source order, each once. WITH macros (C07_cost_bound, by "
+         "induction over expressions with a lemma for the comprehension loop): for every invariant of the contexts the program runs in that survives opening a scope and binding the "
+         "program's own iteration/accumulator variables, if every comprehension ranges over at most B items in such contexts then the invocations are at most cost B e, where a "
+         "comprehension costs range + initial value + B*(condition + step) + result - the size of the program times the product of the nested ranges, never exponential in nesting "
+         "depth; unconditional when the ranges are list literals (C07_cost_bound_literal). Tied to objects.rs/magic.rs by programs whose leaves and calls are wrapped "
          "by id-carrying logging host functions (order and multiplicity visible), every call shape (0-4 arguments, global/receiver, built-in/host, "
          "Arguments), and nested chains to depth 14/22 whose log length was 2^depth before the fix."),
  "C19": ("Theorem (induction over expressions, for every context): if evaluation fails with 'undeclared reference n' then n is among the "
